@@ -107,7 +107,7 @@ def term(case, obs, lk):
                                                      coq_opt(t["inv_amount"], str), t["policy"][0], t["policy"][1], t["policy"][2])
     return "(%s, %s, %s, %s)" % (oracle, ccfg, rq, o)
 
-def run_classify(prop, tier, seed):
+def run_classify(prop, tier, seed, extra=None):
     o = Outcome(prop, tier, seed)
     num = int(prop[1:])
     o.rule = ("cross product {invoice amount present/absent} x {signature valid / corrupted / explicit payee not matching the signature / explicit payee matching} x "
@@ -136,4 +136,5 @@ def run_classify(prop, tier, seed):
     for code, c in zip(codes, tagged):
         if (code >> 4) in (2, 3, 4): o.nontrivial.add(json.dumps([c["desc"], c["cfg"], c["req"]], sort_keys=True))
     o.samples = [tagged[0], tagged[len(tagged) // 2], tagged[-1]]
+    if extra: extra(o, binary)
     return finish(o)
